@@ -82,6 +82,7 @@ Definition type_name (ty : utype) : list N :=
   | UTSigned I8 => s_i8 | UTSigned I16 => s_i16 | UTSigned I32 => s_i32 | UTSigned I64 => s_i64
   | UTSigned UnspecifiedS => []
   | UTNamed s => s
+  | UTTuple _ | UTArray _ _ | UTArrayConst _ _ => []     (* not named by an identifier *)
   end.
 
 Definition parens (s : list token) : list token := tk TLeftParen :: s ++ [tk TRightParen].
@@ -123,6 +124,7 @@ Fixpoint show_raw (e : uexpr) : list token :=
         | _ => tk TLeftBrace :: show_raw e' ++ [tk TRightBrace]
         end
   | UCast ty x => at_ 11 false x (show_raw x) ++ [tk TKeywordAs; tk (TIdentifier (type_name ty))]
+  | UBlock _ | UMatch _ _ => [tk TLeftParen; tk TRightParen]     (* not printed: outside [wf_expr] *)
   end.
 
 Definition show_min (e : uexpr) : list token := show_raw e.
@@ -156,6 +158,7 @@ Fixpoint wf_expr (e : uexpr) : Prop :=
   | UFnCall f args => ident_ok f /\ all args
   | UIf c t e' => wf_expr c /\ wf_expr t /\ wf_expr e'
   | UCast ty x => wf_type ty /\ wf_expr x
+  | UBlock _ | UMatch _ _ => False     (* the expression printer does not cover blocks and match *)
   end.
 
 Fixpoint wf_all (es : list uexpr) : Prop :=
@@ -178,6 +181,8 @@ Section UexprInd.
   Hypothesis HCall : forall f args, Forall Q args -> Q (UFnCall f args).
   Hypothesis HIf : forall c t e, Q c -> Q t -> Q e -> Q (UIf c t e).
   Hypothesis HCast : forall ty x, Q x -> Q (UCast ty x).
+  Hypothesis HBlock : forall b, Q (UBlock b).
+  Hypothesis HMatch : forall e arms, Q (UMatch e arms).
 
   Fixpoint uexpr_ind2 (e : uexpr) : Q e :=
     let all := fix all (es : list uexpr) : Forall Q es :=
@@ -194,6 +199,8 @@ Section UexprInd.
     | UFnCall f args => HCall f args (all args)
     | UIf c t e' => HIf c t e' (uexpr_ind2 c) (uexpr_ind2 t) (uexpr_ind2 e')
     | UCast ty x => HCast ty x (uexpr_ind2 x)
+    | UBlock b => HBlock b
+    | UMatch e arms => HMatch e arms
     end.
 End UexprInd.
 
@@ -356,7 +363,7 @@ Proof.
 Qed.
 
 (* the head conditions under which parse_if_or_match / parse_unary fall through *)
-Definition falls12 (s : pstate) : Prop := next_matches TKeywordIf s = None /\ peek TKeywordMatch s = false.
+Definition falls12 (s : pstate) : Prop := next_matches TKeywordIf s = None /\ next_matches TKeywordMatch s = None.
 Definition falls13 (s : pstate) : Prop := next_matches TBang s = None /\ next_matches TMinus s = None.
 
 Lemma ev_up k s x s1 r s' : (1 <= k <= 13)%nat -> (k = 12%nat -> falls12 s) -> (k = 13%nat -> falls13 s) ->
@@ -481,6 +488,8 @@ Proof.
   - intros c t e' _ _ _. exists TKeywordIf. cbn [show_raw prec hd_tok]. repeat split; intros; try discriminate; auto.
   - intros ty x IHx. destruct (Hat 11%nat x IHx false [tk TKeywordAs; tk (TIdentifier (type_name ty))]) as (t & Ht & Hs & _).
     exists t. cbn [show_raw prec]. split; [exact Ht|]. repeat split; intros; try discriminate; auto.
+  - intros. eexists. cbn. repeat split; intros; try discriminate; auto.
+  - intros. eexists. cbn. repeat split; intros; try discriminate; auto.
 Qed.
 
 (* ------------------------------------------------------------------ next token tests *)
@@ -527,7 +536,7 @@ Definition Gen (e : uexpr) : Prop := forall k j right b rest r s', (1 <= k <= j)
 Lemma head_falls12 s t : hd_tok (toks s) = Some t -> t <> TKeywordIf -> t <> TKeywordMatch -> falls12 s.
 Proof.
   intros H N1 N2. destruct s as [ts b]. cbn [toks] in H. apply hd_tok_inv in H as (m & r & ->).
-  split; [rewrite nm_hd|rewrite peek_hd]; now rewrite teqb_neq.
+  split; rewrite nm_hd; now rewrite teqb_neq.
 Qed.
 
 Lemma head_falls13 s t : hd_tok (toks s) = Some t -> t <> TBang -> t <> TMinus -> falls13 s.
@@ -652,31 +661,31 @@ Lemma expr_start_not t x : expr_start t = true -> expr_start x = false -> teqb t
 Proof. intros H1 H2. apply teqb_neq. intros ->. congruence. Qed.
 
 Lemma block_ev x : Top x -> forall b rest,
-  ev (fun g (_ : nat) => parse_block_as_expr (PE g) (PState (show_raw x ++ tk TRightBrace :: rest) b))
+  ev (fun g n => parse_block_as_expr (PE g) n (PState (show_raw x ++ tk TRightBrace :: rest) b))
      (POk x (PState (tk TRightBrace :: rest) b)).
 Proof.
   intros HT b rest. destruct (HT true (tk TRightBrace :: rest)) as [f Hf].
   { apply nofollow_tok; [reflexivity|intros l H; discriminate H]. }
   destruct (show_head x) as (t & Ht & _ & _ & _ & Hs).
   pose proof (hd_tok_app _ (tk TRightBrace :: rest) _ Ht) as Hh. apply hd_tok_inv in Hh as (m & r & Er).
-  exists f. intros g n Hg Hn.
-  unfold parse_block_as_expr, parse_stmts, parse_stmts_of_block, set_sla. cbn [toks sla].
+  exists (S (S f)). intros g n Hg Hn. destruct n as [|[|n]]; [lia|lia|].
+  unfold parse_block_as_expr, parse_stmts, parse_stmts_of_block, set_sla. cbn [toks sla stmts_loop].
   assert (Hbe : block_ends (PState (show_raw x ++ tk TRightBrace :: rest) true) = false).
   { rewrite Er. unfold block_ends. cbn [toks]. rewrite !peek_hd.
     rewrite !(expr_start_not t) by (exact Hs || reflexivity). reflexivity. }
-  rewrite Hbe. unfold parse_stmt_expr.
-  assert (Hlf : peek TKeywordLet (PState (show_raw x ++ tk TRightBrace :: rest) true)
-                || peek TKeywordFor (PState (show_raw x ++ tk TRightBrace :: rest) true) = false).
-  { rewrite Er, !peek_hd. rewrite !(expr_start_not t) by (exact Hs || reflexivity). reflexivity. }
-  rewrite Hlf. rewrite (Hf g n Hg Hn). cbn [bindp].
+  rewrite Hbe. unfold parse_stmt.
+  assert (Hlet : next_matches TKeywordLet (PState (show_raw x ++ tk TRightBrace :: rest) true) = None).
+  { rewrite Er, nm_hd. now rewrite (expr_start_not t) by (exact Hs || reflexivity). }
+  assert (Hfor : next_matches TKeywordFor (PState (show_raw x ++ tk TRightBrace :: rest) true) = None).
+  { rewrite Er, nm_hd. now rewrite (expr_start_not t) by (exact Hs || reflexivity). }
+  rewrite Hlet, Hfor. rewrite (Hf g (S n)) by lia. cbn [bindp].
   assert (Hend : block_ends (PState (Token TRightBrace m0 :: rest) true) = true) by reflexivity.
-  destruct (is_accessor_chain x).
-  - rewrite !peek_hd. cbn [toks]. 
-    replace (teqb TRightBrace TEq) with false by reflexivity.
-    replace (is_assign_op TRightBrace) with false by reflexivity.
-    rewrite teqb_refl. cbn [negb andb bindp]. rewrite Hend. cbn [bindp toks sla]. reflexivity.
-  - rewrite !peek_hd. rewrite teqb_refl. cbn [negb]. rewrite andb_false_r. cbn [andb bindp].
-    rewrite Hend. cbn [bindp toks sla]. reflexivity.
+  destruct (accessors x) as [[identifier accs]|].
+  - rewrite nm_hd. replace (teqb TRightBrace TEq) with false by reflexivity. cbn [toks assign_op].
+    unfold opt_semicolon. rewrite !peek_hd, teqb_refl. cbn [negb andb bindp stmts_loop].
+    rewrite Hend. cbn [rev app bindp toks sla]. reflexivity.
+  - rewrite !peek_hd. rewrite teqb_refl. cbn [negb]. rewrite andb_false_r. cbn [andb bindp stmts_loop].
+    rewrite Hend. cbn [rev app bindp toks sla]. reflexivity.
 Qed.
 
 Lemma nofollow_more b r rest : nofollow 1 b (more_toks r ++ tk TRightParen :: rest).
@@ -773,18 +782,23 @@ Proof.
 Qed.
 
 (* casts *)
-Lemma type_tok_ok ty : wf_type ty -> forall rest b,
-  parse_type (PState (tk (TIdentifier (type_name ty)) :: rest) b) = POk ty (PState rest b).
-Proof. intros H rest b. unfold parse_type. cbn [peek toks sla orb]. now rewrite H. Qed.
+Lemma type_tok_ok ty : wf_type ty -> forall n rest b,
+  parse_type (S n) (PState (tk (TIdentifier (type_name ty)) :: rest) b) = POk ty (PState rest b).
+Proof.
+  intros H n rest b. cbn [parse_type]. rewrite !nm_hd.
+  replace (teqb (TIdentifier (type_name ty)) TLeftParen) with false by reflexivity.
+  replace (teqb (TIdentifier (type_name ty)) TLeftBracket) with false by reflexivity.
+  unfold expect_identifier. cbn [toks sla]. now rewrite H.
+Qed.
 
 Lemma cp_cast ty x : wf_type ty -> Gen x -> CP (UCast ty x).
 Proof.
   intros Hty HG b rest r s' Hnf HL. cbn [prec] in *. cbn [show_raw]. rewrite <- app_assoc. cbn [app].
   apply (HG 11%nat 11%nat false b _ r s' ltac:(lia) ltac:(lia)).
   - apply nofollow_tok; [reflexivity|intros l [= <-]; lia].
-  - destruct HL as [f Hf]. exists (S f). intros g n Hg Hn. destruct n as [|n]; [lia|].
+  - destruct HL as [f Hf]. exists (S (S f)). intros g n Hg Hn. destruct n as [|[|n]]; [lia|lia|].
     cbn [loop_at cast_loop]. rewrite nm_hd, teqb_refl. rewrite (type_tok_ok ty Hty).
-    cbn [bindp]. apply (Hf g n); lia.
+    cbn [bindp]. apply (Hf g (S n)); lia.
 Qed.
 
 (* binary operators *)
@@ -846,7 +860,7 @@ Proof.
                bindp (parse_if_or_match (PE g) n s7) (fun elseif_expr s8 => POk (UIf c t elseif_expr) s8)
              else
                expect TLeftBrace s7 (fun s8 =>
-                 bindp (parse_block_as_expr (PE g) s8) (fun else_expr s9 =>
+                 bindp (parse_block_as_expr (PE g) n s8) (fun else_expr s9 =>
                    expect TRightBrace s9 (fun s10 => POk (UIf c t else_expr) s10))))
             = POk (UIf c t e') (PState rest b)).
   { destruct (block_ev e' HTe b rest) as [f3 H3].
@@ -856,14 +870,14 @@ Proof.
                  bindp (parse_if_or_match (PE g) n s7) (fun elseif_expr s8 => POk (UIf c t elseif_expr) s8)
                else
                  expect TLeftBrace s7 (fun s8 =>
-                   bindp (parse_block_as_expr (PE g) s8) (fun else_expr s9 =>
+                   bindp (parse_block_as_expr (PE g) n s8) (fun else_expr s9 =>
                      expect TRightBrace s9 (fun s10 => POk (UIf c t else_expr) s10))))
               = POk (UIf c t e') (PState rest b)).
     { intros g n Hg Hn. cbv zeta. cbn [app]. rewrite peek_hd.
       replace (teqb TLeftBrace TKeywordIf) with false by reflexivity.
       unfold expect at 1. rewrite nm_hd, teqb_refl. rewrite <- app_assoc. cbn [app].
       rewrite (H3 g n Hg Hn). cbn [bindp]. unfold expect. rewrite nm_hd, teqb_refl. reflexivity. }
-    destruct e' as [| | | | | | | | | | | |c2 t2 e2|]; try (exists f3; exact Hblock).
+    destruct e' as [| | | | | | | | | | | |c2 t2 e2| | |]; try (exists f3; exact Hblock).
     destruct (HCe c2 t2 e2 eq_refl b rest (UIf c2 t2 e2) (PState rest b)) as [f4 H4].
     { exact Hnf. } { exists 0%nat. intros; reflexivity. }
     exists f4. intros g n Hg Hn. cbv zeta.
@@ -1004,6 +1018,8 @@ Proof.
     destruct (all_of_cp c (IHc Hc)) as (_ & HTc & _). destruct (all_of_cp t (IHt Ht)) as (_ & HTt & _).
     destruct (all_of_cp e' (IHe He)) as (_ & HTe & _). apply cp_if; try assumption. intros; now apply IHe.
   - intros ty x IHx [Hty Hx]. destruct (all_of_cp x (IHx Hx)) as (_ & _ & _ & HG). now apply cp_cast.
+  - intros b [].
+  - intros e arms [].
 Qed.
 
 (* ------------------------------------------------------------------ THE THEOREM *)
@@ -1249,3 +1265,118 @@ Module ParseExamples.
   Example ex_big_roundtrip : parse_expr (fuel_for_tokens (show_min big)) (show_min big) = Some (big, []).
   Proof. vm_compute. reflexivity. Qed.
 End ParseExamples.
+
+(* ------------------------------------------------------------------ statements *)
+
+(* the target of an assignment, read back as an expression, is the parsed left-hand side
+   itself: `x.acc op= v` is parsed to `x.acc = (x.acc op v)` with the SAME index expressions
+   on both sides (they are evaluated twice: the recorded finding op-assign-index-evaluated-twice) *)
+Lemma target_expr_snoc x accs a :
+  target_expr x (accs ++ [a]) =
+  match a with
+  | AArray i => UArrayAccess (target_expr x accs) i
+  | ATuple i => UTupleAccess (target_expr x accs) i
+  | AStruct f => UStructAccess (target_expr x accs) f
+  end.
+Proof. unfold target_expr. rewrite fold_left_app. reflexivity. Qed.
+
+Theorem target_expr_accessors : forall e x accs, accessors e = Some (x, accs) -> target_expr x accs = e.
+Proof.
+  fix IH 1. intros e x accs H. destruct e; cbn [accessors] in H; try discriminate H.
+  - injection H as <- <-. reflexivity.
+  - destruct (accessors e1) as [[id acc]|] eqn:E; [|discriminate H]. injection H as <- <-.
+    rewrite target_expr_snoc. now rewrite (IH e1 id acc E).
+  - destruct (accessors e) as [[id acc]|] eqn:E; [|discriminate H]. injection H as <- <-.
+    rewrite target_expr_snoc. now rewrite (IH e id acc E).
+  - destruct (accessors e) as [[id acc]|] eqn:E; [|discriminate H]. injection H as <- <-.
+    rewrite target_expr_snoc. now rewrite (IH e id acc E).
+Qed.
+Print Assumptions target_expr_accessors.
+
+Module StmtExamples.
+  Local Open Scope string_scope.
+  Import ParseExamples.
+  (* the statements of a function body (the text between its braces) *)
+  Definition pb (s : string) : option (list ustmt) :=
+    let ts := toks_of s in
+    match parse_block_text (fuel_for_tokens ts) ts with POk stmts _ => Some stmts | _ => None end.
+  Definition x_ (s : string) : list N := codes s.
+  Definition pid (s : string) : upattern := PIdentifier (codes s).
+
+  Example ex_let : pb "let x = 1; let mut y: u8 = 2u8; let (a, b): (u8, [bool; 3]) = f(x); let mut z = y; x" =
+    Some [SLet (pid "x") None (n 1);
+          SLetMut (x_ "y") (Some (UTUnsigned U8)) (UNumUnsigned 2 U8);
+          SLet (PTuple [pid "a"; pid "b"]) (Some (UTTuple [UTUnsigned U8; UTArray UTBool 3])) (UFnCall (x_ "f") [v "x"]);
+          SLetMut (x_ "z") None (v "y");
+          SExpr (v "x")].
+  Proof. vm_compute. reflexivity. Qed.
+
+  Example ex_let_types : pb "let a: [[u8; N]; 2usize] = b; let c: Foo = d; let u: () = ();" =
+    Some [SLet (pid "a") (Some (UTArray (UTArrayConst (UTUnsigned U8) (x_ "N")) 2)) (v "b");
+          SLet (pid "c") (Some (UTNamed (x_ "Foo"))) (v "d");
+          SLet (pid "u") (Some (UTTuple [])) (UTupleLiteral [])].
+  Proof. vm_compute. reflexivity. Qed.
+
+  (* assignment through accessors; the compound assignments are desugared, the index expression
+     `f(i)` occurs twice *)
+  Example ex_assign : pb "a[i].0 = e; x += e; a[f(i)] *= 2u8; s.k.1 >>= 1u8" =
+    Some [SVarAssign (x_ "a") [AArray (v "i"); ATuple 0] (v "e");
+          SVarAssign (x_ "x") [] (UOp BAdd (v "x") (v "e"));
+          SVarAssign (x_ "a") [AArray (UFnCall (x_ "f") [v "i"])]
+            (UOp BMul (UArrayAccess (v "a") (UFnCall (x_ "f") [v "i"])) (UNumUnsigned 2 U8));
+          SVarAssign (x_ "s") [AStruct (x_ "k"); ATuple 1]
+            (UOp BShiftRight (UTupleAccess (UStructAccess (v "s") (x_ "k")) 1) (UNumUnsigned 1 U8))].
+  Proof. vm_compute. reflexivity. Qed.
+
+  (* an index that is a bare number is a usize also in an assignment target *)
+  Example ex_assign_index : pb "a[1] = a[1 + 1]" =
+    Some [SVarAssign (x_ "a") [AArray (UNumUnsigned 1 Usize)] (UArrayAccess (v "a") (UOp BAdd (n 1) (n 1)))].
+  Proof. vm_compute. reflexivity. Qed.
+
+  Example ex_for : pb "let mut s = 0; for x in xs { s = s + x; } for (i, y) in f(ys) { g(i); s += y } s" =
+    Some [SLetMut (x_ "s") None (n 0);
+          SForEach (pid "x") (v "xs") [SVarAssign (x_ "s") [] (UOp BAdd (v "s") (v "x"))];
+          SForEach (PTuple [pid "i"; pid "y"]) (UFnCall (x_ "f") [v "ys"])
+            [SExpr (UFnCall (x_ "g") [v "i"]); SVarAssign (x_ "s") [] (UOp BAdd (v "s") (v "y"))];
+          SExpr (v "s")].
+  Proof. vm_compute. reflexivity. Qed.
+
+  (* blocks as expressions; a block of one expression statement in an `if` is that expression,
+     an `if` without else has the unit tuple as else branch *)
+  Example ex_blocks : pb "let z = { let y = 1; { y } }; if c { z } if d { let w = z; w } else { }" =
+    Some [SLet (pid "z") None (UBlock [SLet (pid "y") None (n 1); SExpr (UBlock [SExpr (v "y")])]);
+          SExpr (UIf (v "c") (v "z") (UTupleLiteral []));
+          SExpr (UIf (v "d") (UBlock [SLet (pid "w") None (v "z"); SExpr (v "w")]) (UTupleLiteral []))].
+  Proof. vm_compute. reflexivity. Qed.
+
+  (* match: every arm body is a Block of one statement; exclusive ranges are stored inclusive;
+     no comma is needed after an arm that ends with a brace; trailing comma *)
+  Example ex_match : pb "match x { 0 => 1, 1..3 => 2, 4..=5 => { 3 } -3i8..0i8 => 4, _ => if a { b } else { c } }" =
+    Some [SExpr (UMatch (v "x")
+            [(PNumUnsigned 0 UnspecifiedU, UBlock [SExpr (n 1)]);
+             (PUnsignedInclusiveRange 1 2 UnspecifiedU, UBlock [SExpr (n 2)]);
+             (PUnsignedInclusiveRange 4 5 UnspecifiedU, UBlock [SExpr (UBlock [SExpr (n 3)])]);
+             (PSignedInclusiveRange (-3) (-1) I8, UBlock [SExpr (n 4)]);
+             (pid "_", UBlock [SExpr (UIf (v "a") (v "b") (v "c"))])])].
+  Proof. vm_compute. reflexivity. Qed.
+
+  Example ex_match_patterns : pb "match x { (true, A::B(y), A::C, S { b: 1, a, .. }) => y, T { q } => { q = 1; } _ => 0, }" =
+    Some [SExpr (UMatch (v "x")
+            [(PTuple [PTrue; PEnumTuple (x_ "A") (x_ "B") [pid "y"]; PEnumUnit (x_ "A") (x_ "C");
+                      PStructIgnoreRemaining (x_ "S") [(x_ "a", pid "a"); (x_ "b", PNumUnsigned 1 UnspecifiedU)]],
+              UBlock [SExpr (v "y")]);
+             (PStruct (x_ "T") [(x_ "q", pid "q")], UBlock [SExpr (UBlock [SVarAssign (x_ "q") [] (n 1)])]);
+             (pid "_", UBlock [SExpr (n 0)])])].
+  Proof. vm_compute. reflexivity. Qed.
+
+  (* errors of the real parser: an empty exclusive range, a missing `;`, range suffixes that differ *)
+  Example ex_errors :
+    pb "match x { 1..0 => 1 }" = None /\ pb "let x = 1 x" = None /\ pb "match x { 1u8..2u16 => 1 }" = None /\
+    pb "x = 1 y" = None /\ pb "f(x) g(y)" = None /\ pb "if a { b } g(y)" = Some [SExpr (UIf (v "a") (v "b") (UTupleLiteral [])); SExpr (UFnCall (x_ "g") [v "y"])].
+  Proof. repeat split; vm_compute; reflexivity. Qed.
+
+  (* a struct literal is not allowed in the header of `for` / `match`, but again inside the braces *)
+  Example ex_flag : pb "for x in xs { y } for x in (S { a: 1 }) { }" = None /\
+    (exists o, parse_block_text 50 (toks_of "for x in xs { S { a: 1 } }") = POutside o).
+  Proof. split; [vm_compute; reflexivity|]. eexists. vm_compute. reflexivity. Qed.
+End StmtExamples.
